@@ -89,9 +89,9 @@ Section Merkle.
 
   (** merkle.go:verifyChainedMembershipProof, the loop body from index [i] on; [rest] = proofs[i:].
       On entry of each iteration and at loop exit [subroot == value] (initialised so, and the body
-      ends with [value = subroot]), hence one variable.  [specs[i]]: out of range panics; a nil spec
-      would be dereferenced by ics23 (ExistenceProof.CheckAgainstSpec) — both are excluded by
-      validateVerificationArgs, see MerkleFacts.chained_no_spec_panic. *)
+      ends with [value = subroot]), hence one variable.  [specs[i]]: out of range panics; a nil spec is
+      rejected by ics23 itself (v0.11.0 LeafOp.CheckAgainstSpec: "op and spec must be non-nil") — both are
+      excluded by validateVerificationArgs, see MerkleFacts.chained_panic. *)
   Fixpoint chained (specs : list (option spec)) (path : list bytes) (root : bytes)
            (rest : list (option proof)) (i : nat) (value : bytes) : Outcome :=
     match rest with
@@ -110,7 +110,7 @@ Section Merkle.
                     if negb (is_exist p) then Err             (* proofs[i].GetExist() == nil *)
                     else match nth_error specs i with
                          | None => Panic                       (* specs[i] out of range *)
-                         | Some None => Panic                  (* nil spec dereferenced by ics23 *)
+                         | Some None => Err                    (* nil spec: ics23 returns an error *)
                          | Some (Some s) =>
                              if ep_verify s p subroot key value
                              then chained specs path root rest' (S i) subroot
@@ -166,8 +166,8 @@ Section Merkle.
                     | KOk key =>
                         if negb (is_nonexist p0) then Err      (* GetNonexist() == nil *)
                         else match nth_error specs 0 with
-                             | None => Panic
-                             | Some None => Panic
+                             | None => Panic                   (* specs[0] out of range *)
+                             | Some None => Err                (* nil spec: ics23 returns an error *)
                              | Some (Some s0) =>
                                  if np_verify s0 p0 subroot key
                                  then verify_chained (root_hash root) specs ps keys subroot 1
